@@ -613,7 +613,13 @@ def explore(units, seed, workers, cap_s, t0):
                             pass
                         d.append((R.digest(), [v['sig'] for v in R.violations], R.outcomes))
                     if d[0] != d[1]:
-                        raise RuntimeError(f'unit {u.name}: replaying the first case twice diverged: {d}')
+                        # the runs are deterministic on the unchanged tree (seeds, hash seed, RNG state are owned), so a
+                        # divergence means the implementation's answer depends on what ran before: that is a violation of the
+                        # 'for every input' reading of the property, not a harness failure (DESIGN 3.6a)
+                        S.add_viols([{'unit': u.name, 'index': 0, 'case': u.cases[0],
+                                      'sig': f'{u.name}:determinism:first-case-replay-diverged',
+                                      'msg': f'executing the first case twice in one process gave different observations: {str(d)[:600]}'}])
+                        S.nviol += 1
                 chunk = u.chunk or max(1, min(2000, n // (workers * 8) + 1))
                 tasks = [(ui, s, min(n, s + chunk)) for s in range(0, n, chunk)]
                 ue = un = uc = 0
